@@ -388,7 +388,7 @@ func (c *Ctx) zero(t types.Type) Term {
 		}
 		return c.mkStruct(si, vals)
 	case *types.Array:
-		return T(s, fmt.Sprintf("((as const %s) %s)", s, c.zero(u.Elem()).S))
+		return c.constArray(s, c.zero(u.Elem()))
 	}
 	name := "zero_" + sanitize(string(s))
 	return c.constNamed(name, s)
